@@ -254,6 +254,14 @@ def do_action(obj, root, a, emb, beh=None, env=None):
         if isinstance(res, Payload):
             return {"res": proj.proj_payload(res, None, env.get("oids") if env else None)}
         return {"res": {"k": "X", "t": "returned-" + type(res).__name__}}
+    if op == "fref":
+        env.setdefault("frefs", {})[env["step"]] = fiber_at(root, a["path"])
+        return None
+    if op == "detached":
+        # the kept handle is used like any fiber: a path below it is created and written
+        r = env["frefs"][a["h"]].getPayloadRef(*a["pt"])
+        r <<= a["v"]
+        return None
     if op == "setroot":
         obj.setRoot(proj.build_fiber({"k": "F", "e": a["other"]}))
         return None
